@@ -264,6 +264,9 @@ def watch_terms(ev, env, ghosts, maxlist=8):
                 for k, f in o.items.items():
                     if isinstance(f, V):
                         add("%s[%r]" % (prefix, k), f, depth + 1)
+                    elif hasattr(f, "present"):
+                        watch["%s.has[%r]" % (prefix, k)] = f.present
+                        add("%s[%r]" % (prefix, k), f.value, depth + 1)
 
     for k, v in env.items():
         add(k, v)
